@@ -27,6 +27,7 @@ type VCResult struct {
 	Havocked []string
 	Inputs   []Term // entry parameters (for models)
 	Observe  []string
+	rp       *replayInfo // what a replay of a counterexample needs (not serialised)
 }
 
 func (g *Gen) verifyFunction(fn *ssa.Function, c *Contract) (res *VCResult) {
@@ -249,6 +250,10 @@ func (g *Gen) verifyFunction(fn *ssa.Function, c *Contract) (res *VCResult) {
 	}
 	g.obligeX("canary.exit", "canary", "true", not(or(ens...)), "an exit is reachable (must NOT be provable)", fn.Pos(), false)
 	res.Obls = g.obls
+	res.rp = &replayInfo{g: g, entry: f.entry, exits: f.exits, panics: f.panics, fn: fn}
+	for _, p := range fn.Params {
+		res.rp.params = append(res.rp.params, f.paramEntry[p.Name()])
+	}
 	res.Script = g.script()
 	for k := range g.trusted {
 		res.Trusted = append(res.Trusted, k)
